@@ -329,6 +329,11 @@ struct Model {
     pending: BTreeSet<Kind>,
     /// consecutive failures and the time of the last one
     fails: BTreeMap<Kind, (u32, u64)>,
+    /// enable/disable tasks the outstation rejected (IIN2): the master need not retry them, but "a failing automatic task is
+    /// retried" allows it to - after the back-off that follows the given number of failures at the given time
+    optional: BTreeMap<Kind, (u32, u64)>,
+    /// the start-up sequence of this connection has been completed once (nothing was outstanding at some point)
+    started_up: bool,
     gate_open: bool,
     events_avail: u8,
     /// running task: (name, kind, current sequence number, time the current request was written, iin processed for it)
@@ -349,6 +354,8 @@ impl Model {
             cfg: cfg.clone(),
             pending: BTreeSet::new(),
             fails: BTreeMap::new(),
+            optional: BTreeMap::new(),
+            started_up: false,
             gate_open: false,
             events_avail: 0,
             running: None,
@@ -367,6 +374,8 @@ impl Model {
             .into_iter()
             .collect();
         self.fails.clear();
+        self.optional.clear();
+        self.started_up = false;
         self.gate_open = self.cfg.startup_integrity == 0;
         self.running = None;
         self.last_accepted_unsol = None;
@@ -398,6 +407,7 @@ impl Model {
             self.pending.insert(Kind::Clear);
             self.pending.insert(Kind::Integrity);
             self.pending.insert(Kind::Enable);
+            self.optional.remove(&Kind::Enable);
             self.gate_open = self.cfg.startup_integrity == 0;
         }
         if iin.0 & 0x10 != 0 {
@@ -498,7 +508,22 @@ pub fn analyse(
                 };
                 let kind = kind_of(task);
                 fp = mix(&[fp, 1, kind.map(|k| k as u64 + 1).unwrap_or(0)]);
+                let mut optional_retry = false;
+                if let Some(k) = kind {
+                    if !m.pending.contains(&k) {
+                        if let Some(f) = m.optional.remove(&k) {
+                            // a retry of a rejected enable/disable: allowed, under the back-off rule
+                            m.pending.insert(k);
+                            m.fails.insert(k, f);
+                            optional_retry = true;
+                            bump("probe.rejected_task_retried");
+                        }
+                    }
+                }
                 let outstanding = m.outstanding();
+                if outstanding.is_empty() {
+                    m.started_up = true;
+                }
                 match kind {
                     Some(k) => {
                         if !outstanding.contains(&k) {
@@ -527,7 +552,8 @@ pub fn analyse(
                                     format!("{:?} n={}", k, n),
                                     format!("{:?} for {} failed for the {}. time in a row at {} ms (back-off {} ms, min {} max {}) and was retried at {} ms", k, assoc, n, tf, m.back_off(n), m.cfg.retry_min_ms, m.cfg.retry_max_ms, t)
                                 );
-                            } else if *t > due + 2
+                            } else if *t > due + (m.back_off(n) / 4).clamp(2, 50)
+                                && !optional_retry
                                 && k != Kind::EventScan
                                 && channel_idle(&hist[.._pos], due)
                             {
@@ -542,6 +568,17 @@ pub fn analyse(
                         }
                     }
                     None => {
+                        // the statement orders polls after the start-up sequence (time synchronisation included) and after restart
+                        // handling; a time synchronisation or event scan that became due later is not ordered against polls
+                        let blocking: Vec<Kind> = outstanding
+                            .iter()
+                            .copied()
+                            .filter(|k| !(m.started_up && matches!(k, Kind::TimeSync | Kind::EventScan)))
+                            .collect();
+                        if task == "PeriodicPoll" && !outstanding.is_empty() && blocking.is_empty() {
+                            bump("probe.poll_while_only_later_obligations_outstanding");
+                        }
+                        let outstanding = blocking;
                         if task == "PeriodicPoll" && !outstanding.is_empty() {
                             fail!(
                                 "C17/poll-before-start-up-complete",
@@ -614,7 +651,10 @@ pub fn analyse(
                         };
                     if settled {
                         m.pending.remove(&k);
-                        m.fails.remove(&k);
+                        let n = m.fails.remove(&k).map(|f| f.0).unwrap_or(0) + 1;
+                        if matches!(k, Kind::Disable | Kind::Enable) {
+                            m.optional.insert(k, (n, *t));
+                        }
                     } else if connected {
                         let n = m.fails.get(&k).map(|f| f.0).unwrap_or(0) + 1;
                         m.fails.insert(k, (n, *t));
